@@ -56,7 +56,24 @@ def _texttrace(ctx, quick):
         args.append("-full")
     ctx.vdrive(args)
     rep = ctx.report(rp)
-    results = ctx.validate_traces("TraceText.tla", "TraceText.cfg", sorted(glob.glob(os.path.join(tdir, "*.ndjson"))))
+    files = sorted(glob.glob(os.path.join(tdir, "*.ndjson")))
+    results = ctx.validate_traces("TraceText.tla", "TraceText.cfg", files)
+
+    def to_text(rec):      # a header with a binary byte and no mark, logged as if it had been called text
+        if rec.get("chain") == ["application/octet-stream"] and any(b < 9 for b in rec["raw"]) and rec["raw"][:1] not in ([239], [254], [255], [0]):
+            rec["chain"] = ["text/plain", "application/octet-stream"]
+            rec["cs"] = ""
+            return True
+        return False
+
+    def to_utf16(rec):     # plain ASCII text logged with a charset no clause of C11 allows
+        if rec.get("chain", [""])[0] == "text/plain" and rec.get("cs") == "utf-8" and rec["raw"] and all(32 <= b < 127 for b in rec["raw"]):
+            rec["cs"] = "windows-1252"
+            return True
+        return False
+    rep["binding_selftest"] = dict(
+        C07=core.binding_selftest(ctx, "TraceText.tla", "TraceText.cfg", files[0], to_text, "C07", "a binary header is logged with text/plain in its chain"),
+        C11=core.binding_selftest(ctx, "TraceText.tla", "TraceText.cfg", files[0], to_utf16, "C11", "ASCII text is logged as windows-1252"))
     return rep, results
 
 
@@ -68,6 +85,7 @@ def c07(ctx):
     trep, results = _texttrace(ctx, quick)
     violations = _vio(rep, prop) + _text_trace_violations(results, prop)
     cov = dict(
+        binding_selftest=trep.get("binding_selftest"),
         evaluations=rep["evaluations"] + trep["evaluations"],
         vectors_replayed=rep["extra"]["vectors"],
         distinct_nontrivial=trep["distinct_nontrivial"],
@@ -87,6 +105,7 @@ def c11(ctx):
     trep, results = _texttrace(ctx, quick)
     violations = _vio(rep, prop) + _text_trace_violations(results, prop)
     cov = dict(
+        binding_selftest=trep.get("binding_selftest"),
         evaluations=rep["evaluations"] + trep["evaluations"],
         vectors_replayed=rep["extra"]["vectors"],
         distinct_nontrivial=rep["distinct_nontrivial"],
@@ -232,7 +251,17 @@ def c13(ctx):
     rp = os.path.join(ctx.scratch, "linetrace.json")
     ctx.vdrive(["linetrace", "-outdir", tdir, "-files", 400 if quick else 6000, "-seed", ctx.seed, "-out", rp, "-shards", core.NCPU])
     trep = ctx.report(rp)
-    results = ctx.validate_traces("TraceLines.tla", "TraceLines.cfg", sorted(glob.glob(os.path.join(tdir, "*.ndjson"))))
+    lfiles = sorted(glob.glob(os.path.join(tdir, "*.ndjson")))
+    results = ctx.validate_traces("TraceLines.tla", "TraceLines.cfg", lfiles)
+
+    def ragged(rec):       # a table reported as such, logged with one more field in its second record
+        if rec.get("kind") in ("csv", "tsv") and rec["limit"] == 0 and rec["result"] in ("text/csv", "text/tab-separated-values"):
+            recs = [ln for ln in rec["lines"] if ln["n"] > 0]
+            if len(recs) >= 2:
+                recs[1]["n"] += 1
+                return True
+        return False
+    selftest13 = core.binding_selftest(ctx, "TraceLines.tla", "TraceLines.cfg", lfiles[0], ragged, "C13", "a table reported as CSV / TSV is logged with a ragged second record")
     violations = []
     for rep in reps:
         violations += _vio(rep, prop)
@@ -253,6 +282,7 @@ def c13(ctx):
         distinct_nontrivial=sum(r["extra"]["must_accept_with_cut_inside_file"] for r in reps),
         rule="exhaustive: abstract CSV/TSV files (2-3 record lines x 1-3 fields each, one special field: empty / quoted / quoted with delimiter / quoted with escaped quote, LF / CRLF, with / without final terminator, a blank or comment line inserted anywhere) and NDJSON files (2-%d lines from {object, array, number, string, blank, spaces, viable-but-incomplete, malformed, padded object}) rendered to bytes inside the specification and examined at EVERY limit 0..len+1; TLC checks the implementation-shaped acceptance against the reference on the abstract structure, and every (file, limit) is replayed on the real detectors and Detect. traces: %d generated larger files (RFC 4180 quoting, unicode, comments, ragged rows, damaged JSON lines) cut at every limit, validated by TraceLines.tla. non-trivial = well-formed files cut inside (limit <= length) after the second complete line" % (3 if quick else 4, trep["extra"]["files"]),
         exhaustive=True,
+        binding_selftest=selftest13,
         design=design,
         drift=sum(r["drift"] for r in reps),
         exempt_higher_priority=sum(r["extra"]["exempt_higher_priority"] for r in reps),
